@@ -12,7 +12,9 @@ package main
 
 import (
 	"fmt"
+	"time"
 
+	"gitlab.com/gomidi/midi/v2/drivers"
 	"gitlab.com/gomidi/midi/v2/internal/verifh/engine"
 	ls "gitlab.com/gomidi/midi/v2/internal/verifh/livespace"
 	"gitlab.com/gomidi/midi/v2/internal/verifh/refmidi"
@@ -98,6 +100,70 @@ func feed(cfg config, stream []byte, chunks []int, judgeFrom int) (*ls.Loop, *re
 		pos += n
 	}
 	return l, ref, true
+}
+
+// feedDirect does what feed does one level below: the decoder is used through
+// drivers.NewReader / EachMessage, as a driver does, with an error handler
+// configured (ListenConfig.OnErr). The call-back gets channel and system
+// common messages padded to three bytes; they are cut to their length before
+// the comparison with the reference receiver, and the marker F7 00 00 (an F7
+// outside a sysex) is not a message.
+func feedDirect(cfg config, stream []byte, chunks []int) {
+	var got []ls.Delivered
+	errs := 0
+	rd := drivers.NewReader(drivers.ListenConfig{SysEx: cfg.sysex, TimeCode: true, ActiveSense: true, SysExBufferSize: cfg.buf, OnErr: func(error) { errs++ }},
+		func(m []byte, ts int32) {
+			c := append([]byte(nil), m...)
+			if len(c) == 3 && c[0] == 0xF7 {
+				// the reader's way of telling midi.ListenTo about an F7 outside a
+				// sysex (ListenTo drops it); part of the internal interface on the
+				// unchanged tree, not a delivered message
+				return
+			}
+			if len(c) > 0 && c[0] >= 0x80 && c[0] < 0xF0 || len(c) > 0 && (c[0] == 0xF1 || c[0] == 0xF2 || c[0] == 0xF3 || c[0] == 0xF6) {
+				if n := 1 + refsmfDataLen(c[0]); n <= len(c) {
+					c = c[:n]
+				}
+			}
+			got = append(got, ls.Delivered{Msg: c, TS: ts})
+		})
+	ref := &refmidi.Receiver{BufSize: int(cfg.buf), SysexOn: cfg.sysex}
+	pos, ci := 0, 0
+	for pos < len(stream) {
+		n := 1
+		if chunks != nil {
+			n = chunks[ci]
+			ci++
+		}
+		chunk := stream[pos : pos+n]
+		cls := ref.StateClass()
+		var want []refmidi.Delivery
+		for _, b := range chunk {
+			want = append(want, ref.Feed(b)...)
+		}
+		got = got[:0]
+		c := engine.Catch(func() { rd.EachMessage(chunk, 0) })
+		if c.Panicked {
+			report(c.Sig+":direct-reader:"+cls, cfg, stream[:pos+n], chunks, "EachMessage panicked (reader used directly, error handler set): "+c.Value)
+			return
+		}
+		if d := ls.Compare(got, want); d != "" {
+			report("deliver:"+d+":"+cls+":direct-reader", cfg, stream[:pos+n], chunks,
+				fmt.Sprintf("drivers.Reader with an error handler delivered [%s], reference receiver delivers [%s]", ls.RenderDeliveries(got), ls.RenderRef(want)))
+			return
+		}
+		pos += n
+	}
+}
+
+func refsmfDataLen(st byte) int {
+	switch {
+	case st >= 0xC0 && st <= 0xDF, st == 0xF1, st == 0xF3:
+		return 1
+	case st == 0xF6:
+		return 0
+	}
+	return 2
 }
 
 // chunkOps: every single byte class, plus every chunk of two and three bytes
@@ -197,6 +263,11 @@ func bounded(cfg config, first int, maxAll, maxLen int) {
 					ctx.Add("chunked_streams", 1)
 					feed(cfg, s, c, 0)
 				})
+				ctx.Eval()
+				feedDirect(cfg, s, nil)
+				ctx.Eval()
+				feedDirect(cfg, s, []int{l})
+				ctx.Add("direct_reader_streams", 2)
 			} else {
 				ctx.Eval()
 				feed(cfg, s, []int{l}, 0)
@@ -428,6 +499,48 @@ func longLived(which int) {
 	feed(cfg, st, chunks, 0)
 }
 
+// longPauses: weeks pass between the chunks of a message (the reader's
+// millisecond clock is 32 bits wide and runs over after 24.8 days): what is
+// decoded must not depend on how much time went by.
+func longPauses() {
+	cfg := config{true, 16}
+	day := 24 * time.Hour
+	streams := [][][]byte{
+		{{0x90}, {0x3C}, {0x40, 0x3E, 0x41}, {0x3F}, {0x42}},
+		{{0xF0, 0x01}, {0x02}, {0x03, 0xF7}, {0x91, 0x01, 0x02}},
+		{{0xB1, 0x07, 0x7F}, {0x08}, {0x01}, {0x09, 0x02}},
+		{{0xF2, 0x01}, {0x02}, {0xC3}, {0x05}},
+	}
+	for _, pause := range []time.Duration{0, 20 * day, 24 * day, 25 * day, 30 * day} {
+		for si, st := range streams {
+			l := ls.NewLoop(cfg.opts())
+			ref := &refmidi.Receiver{BufSize: int(cfg.buf), SysexOn: true}
+			var all []byte
+			ctx.Eval()
+			ctx.Add("long_pause_streams", 1)
+			for _, chunk := range st {
+				l.Drv.Sleep(pause)
+				var want []refmidi.Delivery
+				for _, b := range chunk {
+					want = append(want, ref.Feed(b)...)
+				}
+				all = append(all, chunk...)
+				_, c := l.Send(chunk)
+				got := l.Take()
+				if c.Panicked {
+					report(c.Sig+":long-pause", cfg, all, nil, fmt.Sprintf("Send panicked after pauses of %v: %s", pause, c.Value))
+					break
+				}
+				if d := ls.Compare(got, want); d != "" {
+					report("deliver:"+d+":after-long-pause", cfg, all, nil,
+						fmt.Sprintf("stream %d with %v between the chunks: delivered [%s], reference receiver delivers [%s]", si, pause, ls.RenderDeliveries(got), ls.RenderRef(want)))
+					break
+				}
+			}
+		}
+	}
+}
+
 func feedSized(cfg config, eff int, stream []byte, chunks []int) {
 	refBuf = eff
 	feed(cfg, stream, chunks, 0)
@@ -482,6 +595,7 @@ func main() {
 	ctx.Jobs("long-chunks", 2*nl*nl, func(j int) { longChunks(cfgs[j/(nl*nl)], (j/nl)%nl, j%nl) })
 	ctx.Jobs("sysex-words", 10, func(j int) { sysexWords(j, 10) })
 	ctx.Jobs("long-lived", 4, func(j int) { longLived(j) })
+	ctx.Jobs("long-pauses", 1, func(int) { longPauses() })
 	ctx.Set("traces_validated_against_impl", ctx.GetInt("transitions"))
 	ctx.Set("max_depth", ctx.GetInt("max:depth"))
 	ctx.Set("byte_classes", len(ls.Classes))
